@@ -129,6 +129,10 @@ def infer(e, env, cases):
             raise TypeErr(f"{n} of ({ka}, {kb}) is not a case of the LLVM printer: {pp(e)}")
         if ka == "ptr":
             return a
+        if {ka, kb} == {"int", "float"}:
+            # the int side is a user literal (or arithmetic on literals) evaluated in int32: a literal that does not
+            # fit is truncated by the LLVM printer and kept as a long by C, and literal arithmetic overflows
+            raise TypeErr(f"int operand promoted to double inside value arithmetic (int32 overflow / truncation of a literal): {pp(e)}")
         return "float" if "float" in (ka, kb) else "int"
     if n in ("Equal", "NotEqual", "GreaterThan", "LessThan", "GreaterThanOrEqual", "LessThanOrEqual"):
         a = infer(e.left, env, cases)
@@ -250,6 +254,127 @@ def rule_kernel_typing(k):
 
         visit(fn.body, dict(params), set())
         k.ok("C06.kernel-typing", n[0])
+
+
+def _reads(s, x):
+    """Does simple statement / expression-bearing node read variable x (by name)?"""
+    IR = kir.IR
+    reads, tgt = kir.stmt_exprs(s)
+    exprs = list(reads)
+    if tgt is not None and not isinstance(tgt, IR.Variable):
+        exprs.append(tgt)  # address computation reads its variables
+    return any(x in kir.expr_vars(e) for e in exprs)
+
+
+def _outer_live_at_shadow(scope_stmts, start, x):
+    """Single-variable backward liveness over the structured IR for the variable x declared at
+    scope_stmts[start]; statements of a nested scope from a re-declaration of x onward refer to the inner
+    variable and are masked.  Returns the re-declarations at which the OUTER x is still live (read later
+    on some path before being overwritten)."""
+    IR = kir.IR
+    hits = []
+
+    def is_decl(s):
+        return isinstance(s, (IR.Declaration, IR.DeclarationAssignment)) and kir.defined_var(s) == x
+
+    def live_in_list(lst, live_out, nested, record):
+        cut = next((i for i, s in enumerate(lst) if is_decl(s)), None) if nested else None
+        if cut is not None:
+            if record:
+                hits.append((lst[cut], live_out))
+            lst = lst[:cut]
+        live = live_out
+        for s in reversed(lst):
+            live = live_in(s, live, record)
+        return live
+
+    def live_in(s, live_out, record):
+        if isinstance(s, IR.Branch):
+            a = live_in_list(kir.body_list(s.if_true), live_out, True, record)
+            b = live_in_list(kir.body_list(s.if_false), live_out, True, record)
+            return x in kir.expr_vars(s.condition) or a or b
+        if isinstance(s, IR.Loop):
+            c = x in kir.expr_vars(s.condition)
+            body = kir.body_list(s.body)
+            back = c or live_out
+            for _ in range(2):
+                back = c or live_out or live_in_list(body, back, True, False)
+            if record:
+                live_in_list(body, back, True, True)
+            return back
+        if _reads(s, x):
+            return True
+        if kir.defined_var(s) == x:
+            return False
+        return live_out
+
+    live_in_list(scope_stmts[start + 1 :], False, False, True)
+    return [d for d, live in hits if live]
+
+
+def rule_no_shadowing(k):
+    """The K rules read the IR with C block scoping; the LLVM printer hoists one stack slot per NAME to
+    function level.  The two agree iff no declaration shadows an enclosing declaration whose variable is
+    still LIVE there (sibling scopes, and a dead outer variable such as a finished loop counter, may
+    reuse a name).  A live shadowed variable is clobbered on the LLVM backend only (e.g. a loop bound keyed
+    by tensor name instead of reference id in `B(i,k) = A(i,j) * A(j,k)`)."""
+    IR = kir.IR
+    for kind, fn in k.kernels.items():
+        k.instance("C06.no-shadowing")
+        n = [0]
+
+        def scopes(lst):
+            yield lst
+            for s in lst:
+                if isinstance(s, IR.Branch):
+                    yield from scopes(kir.body_list(s.if_true))
+                    yield from scopes(kir.body_list(s.if_false))
+                elif isinstance(s, IR.Loop):
+                    yield from scopes(kir.body_list(s.body))
+
+        for lst in scopes(kir.body_list(fn.body)):
+            for i, s in enumerate(lst):
+                if isinstance(s, (IR.Declaration, IR.DeclarationAssignment)):
+                    n[0] += 1
+                    x = kir.defined_var(s)
+                    for d in _outer_live_at_shadow(lst, i, x):
+                        k.fail(
+                            "C06.no-shadowing",
+                            kind,
+                            norm_text(pps(d)),
+                            f"{x} is declared again inside the scope of an enclosing declaration of {x} whose value is still needed "
+                            "afterwards: C gives the inner one its own storage, the LLVM printer hoists both into one slot, so the "
+                            "outer value is clobbered on LLVM only",
+                        )
+        k.ok("C06.no-shadowing", n[0])
+
+
+def rule_llvm_verifies(k):
+    """C06/C08: the text the LLVM printer emits for the module holding all three kernels of the problem is
+    accepted by LLVM's own parser and verifier (a static checker of the emitted artifact: every value used
+    in a function is defined in it and dominates the use, types agree, blocks are terminated).  The
+    kernels are not compiled or run.  This is the LLVM-side sibling of kernel-typing's C scoping rules and
+    the only rule that sees the printer's own bookkeeping (per-function name scope, block structure)."""
+    import llvmlite.binding as llvm
+    from tensora.codegen import ir_to_llvm
+
+    k.instance("C06.llvm-verifies")
+    try:
+        text = str(ir_to_llvm(k.module))
+    except Exception as e:  # noqa: BLE001
+        k.fail("C06.llvm-verifies", "module", "ir_to_llvm", f"the LLVM printer raised {type(e).__name__}: {str(e)[:200]}")
+        return
+    try:
+        m = llvm.parse_assembly(text)
+        m.verify()
+    except RuntimeError as e:
+        msg = " ".join(str(e).split())[:240]
+        import re
+
+        # key by the message with value names abstracted, so one defect is one finding per problem shape
+        k.fail("C06.llvm-verifies", "module", re.sub(r"%\"?[\w.]+\"?", "%v", msg)[:120], f"LLVM rejects the emitted module: {msg}")
+        return
+    k.ok("C06.llvm-verifies", text.count("\ndefine "))
 
 
 def _src_of(k):
